@@ -143,6 +143,7 @@ int mc_cond_timedwait(pthread_cond_t* c, pthread_mutex_t* m, const struct timesp
 int mc_cond_signal(pthread_cond_t* c);
 int mc_cond_broadcast(pthread_cond_t* c);
 int mc_thread_create(pthread_t* t, const pthread_attr_t* a, void* (*fn)(void*), void* arg);
+void mc_fail_next_create(void);      /* the next pthread_create of the code under test, called by this thread, fails with EAGAIN */
 int mc_thread_create_ut(pthread_t* t, const pthread_attr_t* a, void* (*fn)(void*), void* arg);   /* + a scheduling point after the creation */
 int mc_thread_join(pthread_t t, void** ret);
 void mc_yield(void);
